@@ -978,8 +978,16 @@ func checkC18(ck *Check) {
 			termParam = prm
 		}
 	}
+	entryFn := fn
 	if termParam == nil {
-		ck.fail("C18.R1", funcID(fn)+"/terminate-param", "", funcID(fn), "the attach step takes the terminate function as a parameter", "none", "")
+		// the batches may be attached by a helper that hands the unattached ids back with the error,
+		// and terminated by the function that called it
+		entryFn = ck.attachStepSplit(fn, cl)
+		if entryFn == nil {
+			ck.fail("C18.R1", funcID(fn)+"/terminate-param", "", funcID(fn), "the attach step takes the terminate function as a parameter (or hands the unattached ids back to a caller that does)", "none", "")
+			return
+		}
+		ck.attachStepTail(entryFn)
 		return
 	}
 	// spillOf: v is the parameter prm, or a load of the cell the compiler moved it to (a captured
@@ -1163,6 +1171,15 @@ func checkC18(ck *Check) {
 	}
 	ck.floor("C18.R1", "error exits of the attach step", nerr, 2)
 	ck.floor("C18.R2", "success exits of the attach step", nok, 1)
+	ck.attachStepTail(entryFn)
+
+}
+
+// attachStepTail: the rules of C18 beyond the attach step itself (R3 nothing dropped, R4 terminate
+// chunking, R5 error chain, R6, R7); fn is the function the fleet strategy calls with the terminate
+// function.
+func (ck *Check) attachStepTail(fn *ssa.Function) {
+	a := ck.A
 
 	// R3 nothing dropped between CreateFleet and attach
 	{
@@ -1206,6 +1223,18 @@ func checkC18(ck *Check) {
 									emptyAtom = Atom(at)
 								}
 							}
+						}
+					}
+					// the same test written as an ordering: ¬(0 < len(Instances)), len(Instances) < 1
+					if at.Kind == "cmp" && at.Name == "<" && len(at.Args) == 2 {
+						isLen := func(x *Term) bool {
+							return x.Kind == "len" && x.Args[0].Kind == "field" && x.Args[0].Name == "Instances" && x.Args[0].Args[0].Key() == fleetOut.Key()
+						}
+						if k, ok := at.Args[0].isConstInt(); ok && k == 0 && isLen(at.Args[1]) {
+							emptyAtom = Not(Atom(at))
+						}
+						if k, ok := at.Args[1].isConstInt(); ok && k == 1 && isLen(at.Args[0]) {
+							emptyAtom = Atom(at)
 						}
 					}
 				}
@@ -3039,4 +3068,207 @@ func (ck *Check) idListIntegrity(rule string) {
 		ck.ok(rule, "id-lists/integrity", "", "", "an id list is written in place only when nothing reads the list (or a re-slice of it) afterwards", fmt.Sprintf("%d functions of the AWS provider, %d in-place writes examined", nfn, nwrites))
 	}
 	ck.floor(rule, "functions of the AWS provider examined", nfn, 20)
+}
+
+// attachStepSplit: the attach calls live in chunkFn, which has no terminate parameter: every error
+// return of chunkFn hands back exactly the ids that were not attached, and its caller — the
+// function the terminate function is passed to — terminates exactly those before it reports the
+// error, terminates the whole input when it fails before calling chunkFn, and terminates nothing
+// on success. Returns that caller (nil when the shape is not recognised).
+func (ck *Check) attachStepSplit(chunkFn *ssa.Function, cl *chunkLoop) *ssa.Function {
+	res := chunkFn.Signature.Results()
+	ri, ei := -1, -1
+	for i := 0; i < res.Len(); i++ {
+		if _, ok := res.At(i).Type().Underlying().(*types.Slice); ok {
+			ri = i
+		}
+		if isErrorType(res.At(i).Type()) {
+			ei = i
+		}
+	}
+	if ri < 0 || ei < 0 {
+		return nil
+	}
+	var driver *ssa.Function
+	var call *ssa.Call
+	for _, c := range ck.P.callers[chunkFn] {
+		sites := callsTo(c, chunkFn)
+		if len(sites) != 1 || driver != nil {
+			return nil
+		}
+		cc, ok := sites[0].(*ssa.Call)
+		if !ok {
+			return nil
+		}
+		driver, call = c, cc
+	}
+	if driver == nil {
+		return nil
+	}
+	var termParam *ssa.Parameter
+	for _, prm := range driver.Params {
+		if _, ok := prm.Type().Underlying().(*types.Signature); ok {
+			termParam = prm
+		}
+	}
+	if termParam == nil {
+		return nil
+	}
+	ctx := ck.P.NewCtx(chunkFn)
+	attSites, _ := ck.effSites("W-ASG-ATT", chunkFn)
+	// (1) what chunkFn hands back
+	nerr, nok := 0, 0
+	for _, b := range chunkFn.Blocks {
+		r, ok := b.Instrs[len(b.Instrs)-1].(*ssa.Return)
+		if !ok || b == chunkFn.Recover {
+			continue
+		}
+		et := ctx.Term(r.Results[ei])
+		key := fmt.Sprintf("%s/return@block%d", funcID(chunkFn), b.Index)
+		if et.Kind == "const" && et.Name == "nil" {
+			nok++
+			continue
+		}
+		nerr++
+		arg := r.Results[ri]
+		var failed *ssa.Call
+		for _, w := range attSites {
+			if c, ok := w.Call.(*ssa.Call); ok && c.Block().Dominates(b) && c.Block() != b {
+				if failed == nil || failed.Block().Dominates(c.Block()) {
+					failed = c
+				}
+			}
+		}
+		var okv bool
+		var want string
+		switch {
+		case failed == nil:
+			want, okv = "the whole input (nothing attached yet)", arg == cl.Init
+		case cl.loop.Blocks[failed.Block()]:
+			want = "rest ∪ failed batch = append(s[k:], s[0:k]...) (or s itself)"
+			if ap, isAp := isBuiltinCall(arg, "append"); isAp {
+				x, y := ap.Common().Args[0], ap.Common().Args[1]
+				okv = (x == ssa.Value(cl.Rest) && y == ssa.Value(cl.Batch)) || (x == ssa.Value(cl.Batch) && y == ssa.Value(cl.Rest))
+			} else {
+				okv = arg == ssa.Value(cl.S)
+			}
+		default:
+			want, okv = "the remainder s", arg == ssa.Value(cl.S)
+		}
+		ck.cond(okv, "C18.R1", key+"/terminated-set", ck.P.instrPos(r), funcID(chunkFn), "the ids handed back with the error are exactly the ones not attached: "+want, ctx.Term(arg).String(), "some acquired instances are neither attached nor submitted for termination (or attached ones are terminated)")
+	}
+	ck.floor("C18.R1", "error exits of the attach step", nerr, 2)
+	ck.floor("C18.R2", "success exits of the attach step", nok, 1)
+	// (2) what the driver does with them
+	spillCell := func(al *ssa.Alloc) bool {
+		n, okv := 0, false
+		for _, r := range *al.Referrers() {
+			if st, ok := r.(*ssa.Store); ok && st.Addr == ssa.Value(al) {
+				n++
+				okv = st.Val == ssa.Value(termParam)
+			}
+		}
+		return n == 1 && okv
+	}
+	isTerm := func(in ssa.Instruction) *ssa.Call {
+		c, ok := in.(*ssa.Call)
+		if !ok || len(c.Common().Args) != 2 {
+			return nil
+		}
+		v := c.Common().Value
+		if v == ssa.Value(termParam) {
+			return c
+		}
+		if u, ok := v.(*ssa.UnOp); ok && u.Op == token.MUL {
+			if al, ok := u.X.(*ssa.Alloc); ok && spillCell(al) {
+				return c
+			}
+		}
+		return nil
+	}
+	var errV, orphV ssa.Value
+	for _, r := range *call.Referrers() {
+		if ex, ok := r.(*ssa.Extract); ok {
+			if ex.Index == ei {
+				errV = ex
+			}
+			if ex.Index == ri {
+				orphV = ex
+			}
+		}
+	}
+	dkey := funcID(driver)
+	if errV == nil || orphV == nil {
+		ck.fail("C18.R1", dkey+"/uses-results", ck.P.instrPos(call), funcID(driver), "the caller of "+chunkFn.Name()+" takes both the unattached ids and the error", "a result is dropped", "")
+		return driver
+	}
+	// the list parameter of chunkFn is the driver's own input, unchanged
+	var input ssa.Value
+	for i, p := range chunkFn.Params {
+		if ssa.Value(p) == cl.Init && i < len(call.Common().Args) {
+			input = call.Common().Args[i]
+		}
+	}
+	_, inputIsParam := input.(*ssa.Parameter)
+	ck.cond(inputIsParam, "C18.R1", dkey+"/input", ck.P.instrPos(call), funcID(driver), chunkFn.Name()+" is handed the caller's own id list parameter", fmt.Sprint(input), "")
+	dctx := ck.P.NewCtx(driver)
+	nilT := &Term{Kind: "const", Name: "nil"}
+	failedF := Not(cmpFormula(token.EQL, dctx.Term(errV), nilT))
+	for _, b := range driver.Blocks {
+		for _, at := range dctx.BlockPC(b).Atoms() {
+			if at.Kind == "cmp" && at.Name == "==" && hasConstStr(at, "nil") {
+				for _, x := range at.Args {
+					if x.Key() == dctx.Term(errV).Key() {
+						failedF = Not(Atom(at))
+					}
+				}
+			}
+		}
+	}
+	for _, b := range driver.Blocks {
+		r, ok := b.Instrs[len(b.Instrs)-1].(*ssa.Return)
+		if !ok || b == driver.Recover || len(r.Results) == 0 {
+			continue
+		}
+		rt := dctx.Term(r.Results[len(r.Results)-1])
+		isNil := rt.Kind == "const" && rt.Name == "nil"
+		key := fmt.Sprintf("%s/return@block%d", dkey, b.Index)
+		var tc *ssa.Call
+		for _, in := range b.Instrs {
+			if c := isTerm(in); c != nil {
+				tc = c
+			}
+		}
+		if isNil {
+			clean := tc == nil
+			for _, ob := range driver.Blocks {
+				for _, in := range ob.Instrs {
+					if c := isTerm(in); c != nil && reachesWithout(c, r, func(ssa.Instruction) bool { return false }) {
+						clean = false
+					}
+				}
+			}
+			ck.cond(clean, "C18.R2", key, ck.P.instrPos(r), funcID(driver), "the success exit calls no terminate (attached ⊕ terminated)", "", "instances are both attached and terminated")
+			// success only if the batches were attached
+			if call.Block().Dominates(b) {
+				ck.entails("C18.R5", key+"/reported", r, dctx.BlockPC(b), Not(failedF), "a nil error is returned only if "+chunkFn.Name()+" returned nil")
+			}
+			continue
+		}
+		if tc == nil {
+			ck.fail("C18.R1", key, ck.P.instrPos(r), funcID(driver), "every error exit of the attach step first calls terminate", "no terminate call before this return", "acquired instances are neither attached nor terminated when this step fails")
+			continue
+		}
+		arg := tc.Common().Args[1]
+		if call.Block().Dominates(b) && call.Block() != b {
+			okv := arg == orphV
+			if imp, _, _ := Entails(dctx.BlockPC(b), failedF); !imp {
+				okv = false
+			}
+			ck.cond(okv, "C18.R1", key+"/terminated-set", ck.P.instrPos(tc), funcID(driver), "after a failed "+chunkFn.Name()+" exactly the ids it handed back are terminated", dctx.Term(arg).String(), "some acquired instances are neither attached nor submitted for termination (or attached ones are terminated)")
+		} else {
+			ck.cond(arg == input, "C18.R1", key+"/terminated-set", ck.P.instrPos(tc), funcID(driver), "before anything was attached the whole input is terminated", dctx.Term(arg).String(), "some acquired instances are neither attached nor submitted for termination")
+		}
+	}
+	return driver
 }
